@@ -27,10 +27,11 @@ import warnings
 
 import numpy as np
 
-from runner import Infra
+from runner import Infra, TieBroken
 
 ID = "C06"
-LEAN_MODULES = ["PyYetiVerif.Props.C06", "PyYetiVerif.Props.C06b", "PyYetiVerif.Props.C06c", "PyYetiVerif.Audit.C06"]
+LEAN_MODULES = ["PyYetiVerif.Props.C06", "PyYetiVerif.Props.C06b", "PyYetiVerif.Props.C06c", "PyYetiVerif.Props.C06d",
+                "PyYetiVerif.Props.C06e", "PyYetiVerif.Props.C06f", "PyYetiVerif.Props.C06g", "PyYetiVerif.Audit.C06"]
 AUDIT_FILE = "PyYetiVerif/Audit/C06.lean"
 THEOREMS = ["PyYetiVerif.C06." + n for n in (
     "cgmass_recovers cgmass_recovers_general rbmove_comp rbmove_rbgeom reorder_pv_perm reorder_perm "
@@ -40,7 +41,13 @@ THEOREMS = ["PyYetiVerif.C06." + n for n in (
     # rbmultchk, cbtf at 0 Hz
     "guyan_preserves_eigenpairs guyanK_eq_blocks psiResid_eq_blocks guyanExpand_rows null_trim_sound nullExpand_rows "
     "coordchk_trim_sound trimRef_spec rbdispchk_recovers_coords rbdispchk_recovers_grid coordchk_coords_local net_force_is_resultant "
-    "net_drm_is_resultant net_force_is_resultant_local rbmult_eq_mul cbtf_static_limit cbtfStaticFrc_eq"
+    "net_drm_is_resultant net_force_is_resultant_local rbmult_eq_mul cbtf_static_limit cbtfStaticFrc_eq "
+    # second extension: mk_net_drms as a whole (C06d), principal inertias (C06e), rbmultchk's scale / coordinates (C06f),
+    # cbcheck as decision logic and data recovery matrices under cbreorder / cbconvert (C06g)
+    "net_ifltm_is_interface_resultant net_ifltm_units rbe3_normal_reproduces net_ifatm_is_rb_acceleration_of_interface resultant_force_ref_indep cgatm_translation_rows_are_cg_acceleration cgatm_rotation_rows_are_moment_about_offset cgatm_rotation_rows_reference_counterexample cglf_is_weight_normalised cglf_moment_rows_match_shear tsc2lv_blocks mk_net_drms_fields "
+    "eigh_spec_charpoly principal_inertias_invariant principal_inertias_ref_indep rotated_mass_blocks principal_gyr_eq eighResid_spec "
+    "find_xyz_triples_segs rbScale2_grids rbmultchk_scale_and_coords rbmultchk_flags_nonrigid "
+    "role_after_reorder convert_reorder_commute cbcheck_errors cbcheck_returns_def cbcheck_option_independence cbcheck_no_modal_dof convert_qq_diag_invariant cbcheck_frq_conv_invariant flippv_order_indep reorder_drm_response convert_drm_response convert_drm_roundtrip conv_factors_inverse"
 ).split()]
 TRUSTED = [
     "correspondence harness harness/props/c06.py (numeric comparison 1e-9*scale, exact for index vectors / trimmed DOF lists / "
@@ -139,6 +146,25 @@ MANIFEST = {
     "permutation matrices, Schur complements, reuse of C14's 3x3 frame lemmas) + numeric differential correspondence with "
     "pyyeti.cb / n2p on generated structures, incl. full parsing of cbcheck's report",
 }
+
+
+def translate(ctx):
+    """tolerances, thresholds, defaults and unit factors of cb.py (+ two of n2p.py) -> Generated/RigidBodyConsts.lean"""
+    import sys
+
+    tdir = os.path.join(ctx.verif, "harness", "translate")
+    if tdir not in sys.path:
+        sys.path.insert(0, tdir)
+    import c06_cbconsts as tr
+
+    try:
+        names, consts = tr.run(ctx.repo, ctx.lean)
+    except tr.Unparsable as e:
+        raise TieBroken("the constants of cb.py / n2p.py no longer fit the translator's grammar: %s" % e)
+    except (OSError, SyntaxError) as e:
+        raise TieBroken("cannot read cb.py / n2p.py: %s" % e)
+    ctx.extra["generated_constants"] = consts
+    return names
 
 
 # ---------------------------------------------------------------------------------------
@@ -360,6 +386,18 @@ M2E = (39.37007874015748, 0.005710147154735817)  # cbconvert docstring table
 E2M = (0.0254, 175.12683524637913)
 
 
+def conv_code(conv):
+    """how a `conv` argument travels to the driver: the two strings by name (the model then uses the factors the
+    translator extracted from `_get_conv_factors`), a tuple by value"""
+    if conv is None:
+        return "0"
+    if conv == "m2e":
+        return "2"
+    if conv == "e2m":
+        return "3"
+    return "1 " + bits([float(conv[0]), float(conv[1])])
+
+
 def conv_factors(conv):
     if conv is None:
         return None
@@ -410,10 +448,9 @@ def gen_spec(rng, tier_big=False):
     if spec["reorder"] and nbg > 1 and rng.random() < 0.75:
         perm = [int(x) for x in rng.permutation(nbg)]
     spec["gridperm"] = perm
-    if not spec["reorder"]:
-        # cbcheck(reorder=False) is only right with the b-set leading (finding F33,
-        # cbcheck-noreorder-bset-not-leading, probed by the oracle); keep the other streams inside
-        spec["layout"] = "first"
+    # (reorder=False with the b-set last / interleaved is inside the domain since the fix 666dd84, finding F33)
+    # effective-mass print filter: only which rows of the table are printed
+    spec["em_filt"] = [0, 0, 0, float(np.round(10 ** rng.uniform(-1, 1.4), 3))][int(rng.integers(0, 4))]
     return spec
 
 
@@ -605,7 +642,7 @@ def pencil_truth(Kcb, Mcb, nb):
                 null=[int(i) for i in np.setdiff1d(np.arange(n), keep)], massless=[int(i) for i in np.nonzero(~xm)[0]])
 
 
-def run_cbcheck(case):
+def run_cbcheck(case, extra=None):
     from pyyeti import cb
 
     spec = case["spec"]
@@ -619,7 +656,7 @@ def run_cbcheck(case):
         warnings.simplefilter("ignore")
         out = cb.cbcheck(f, case["Min"].copy(), case["Kin"].copy(), case["bseto"].copy(), case["bref"].copy(),
                          case["uset"], uref=case["uref"], conv=conv, rb_norm=spec["rbnorm"],
-                         reorder=spec["reorder"], n_freefree_modes=nff)
+                         reorder=spec["reorder"], n_freefree_modes=nff, em_filt=spec.get("em_filt", 0), **(extra or {}))
     return out, f.getvalue()
 
 
@@ -1468,18 +1505,20 @@ def _bref_on_pinned(spec):
     return spec.get("special") == "pinned" and spec["brefgrid"] == spec["special_pos"]
 
 
-def cbcheck_request(case):
+def cbcheck_request(case, uset=None, bseto=None, reorder=None):
     spec = case["spec"]
-    cf = conv_factors(spec["conv"])
-    parts = ["cbcheck", str(case["n"]), str(case["nb"]), ints(case["bseto"]), ints(case["bref"])]
-    parts.append("1 " + bits(cf) if cf else "0")
-    parts.append("1" if spec["reorder"] else "0")
+    parts = ["cbcheck", str(case["n"]), str(case["nb"]), ints(bseto if bseto is not None else case["bseto"]), ints(case["bref"])]
+    parts.append(conv_code(spec["conv"]))
+    parts.append("1" if (spec["reorder"] if reorder is None else reorder) else "0")
     parts.append({None: "-1", True: "1", False: "0"}[spec["rbnorm"]])
+    parts.append(bits([spec.get("em_filt", 0)]))
     if spec["uref"] == "id":
         parts.append("1 %d" % (6 * spec["brefgrid"]))
     else:
         parts.append("0 " + bits(case["uref_xyz"]))
-    parts.append(bits(case["uset"].loc[:, "x":"z"].values))
+    uvals = (uset if uset is not None else case["uset"]).loc[:, "x":"z"].values
+    parts.append(str(uvals.shape[0]))
+    parts.append(bits(uvals))
     parts.append(bits(case["Min"]))
     parts.append(bits(case["Kin"]))
     return " ".join(parts)
@@ -1487,7 +1526,7 @@ def cbcheck_request(case):
 
 def parse_cbcheck_reply(rep, n, nb):
     t = rep.split(" ")
-    if t[0] in ("raise-refpoint", "raise-singular"):
+    if t[0] in ("raise-refpoint", "raise-singular", "raise-usetrows", "raise-notascending"):
         return {"chk": t[0]}
     if t[0] not in ("pass", "fail", "single"):
         raise Infra("C06 driver: unexpected cbcheck reply %r" % rep[:80])
@@ -1507,11 +1546,13 @@ def parse_cbcheck_reply(rep, n, nb):
         out[name] = v[k:k + sz].reshape(shape)
         k += sz
     tail = [int(x) for x in t[1 + nfl:]]
-    if len(tail) < 3 or len(tail) != 3 + tail[1] + tail[2]:
+    if len(tail) < 5 or len(tail) != 5 + tail[1] + tail[2] + tail[3]:
         raise Infra("C06 driver: cbcheck reply has a malformed integer tail %r" % tail[:8])
-    out["ntrim"], nnull, nml = tail[:3]
-    out["null"] = tail[3:3 + nnull]
-    out["massless"] = tail[3 + nnull:]
+    out["ntrim"], nnull, nml, npr = tail[:4]
+    out["rbnorm"] = bool(tail[4])
+    out["null"] = tail[5:5 + nnull]
+    out["massless"] = tail[5 + nnull:5 + nnull + nml]
+    out["printed"] = tail[5 + nnull + nml:]
     return out
 
 
@@ -1527,6 +1568,10 @@ def spec_branches(spec):
         br.append("mass:unequal-translational")
     if any(k in (2, 3) for k in spec["kinds"]):
         br.append("cs:curvilinear-possible")
+    if spec.get("em_filt", 0) > 0:
+        br.append("em_filt:positive")
+    if not spec["reorder"] and spec["layout"] != "first":
+        br.append("reorder:False-bset-not-leading")
     if spec.get("special"):
         br.append("special:" + spec["special"])
         if spec["brefgrid"] == spec["special_pos"]:
@@ -1651,12 +1696,25 @@ def compare_cbcheck(ctx, cmp, case, out, txt, mo):
         ctx.disagree(R, inp, {"what": "ids of the coordinate table", "printed": rp.get("coord_ids")}, ids_model)
     # fixed-base table: mode number, frequency (3 decimals), percent (2 decimals), column totals
     if nq:
-        if rp.get("em_percent") is None or rp["em_modes"] != list(range(1, nq + 1)):
-            ctx.disagree(R, inp, {"what": "effective mass table rows", "modes": rp.get("em_modes")}, list(range(1, nq + 1)))
+        emf = float(spec.get("em_filt", 0))
+        pr = mo["printed"]
+        with np.errstate(invalid="ignore"):
+            near = emf > 0 and np.all(np.isfinite(mo["percent"])) and np.any(np.abs(mo["percent"] - emf) <= 1e-7 * max(emf, 1.0))
+        if near:
+            ctx.skip("a percent effective mass sits on the em_filt threshold")
+        elif rp.get("em_percent") is None or rp["em_modes"] != [q + 1 for q in pr]:
+            # which rows are printed (em_filt): exact
+            ctx.disagree(R, inp, {"what": "effective mass table rows", "modes": rp.get("em_modes")}, [q + 1 for q in pr])
         elif np.all(np.isfinite(mo["percent"])):
-            _tab_close(ctx, R, inp, "effective mass table: percent", rp["em_percent"], mo["percent"], 0.6e-2, 1e-7, 100.0)
-            _tab_close(ctx, R, inp, "effective mass table: frequency", rp["em_frq"], mo["frq"], 0.6e-3, 1e-9)
+            _tab_close(ctx, R, inp, "effective mass table: percent", rp["em_percent"], mo["percent"][pr], 0.6e-2, 1e-7, 100.0)
+            _tab_close(ctx, R, inp, "effective mass table: frequency", rp["em_frq"], mo["frq"][pr], 0.6e-3, 1e-9)
             _tab_close(ctx, R, inp, "effective mass table: totals", rp["em_total"], mo["percent"].sum(axis=0), 0.6e-2, 1e-7, 100.0)
+        if emf > 0 and ("Printing only the modes with at least %.1f%% effective" % emf) not in txt:
+            ctx.disagree(R, inp, "the em_filt note is missing from the report", "Printing only the modes with at least %.1f%%" % emf)
+        if emf > 0 and len(pr) < nq:
+            ctx.count("em_filt:rows-dropped")
+    elif not rp.get("no_modes_note"):
+        ctx.disagree(R, inp, "report of a model without modal DOF lacks the no-modes note", "There are no modes ...")
     # matrix value checks (%g, 6 significant digits) on the matrices _solve_eig hands back
     for j, key in enumerate(("mqq_diag", "mqq_off", "kbb_max", "kbq_max", "kqq_off", "kqq_min")):
         got = rp["vals"].get(key)
@@ -1758,6 +1816,22 @@ def correspondence(ctx):
                 continue
         cb_cases.append(case)
         req.append(cbcheck_request(case))
+    # the two input errors of the dispatch: a uset of the wrong size, reorder=False with a bseto that is not ascending
+    err_cases = []
+    for case in cb_cases:
+        if len(err_cases) >= 6:
+            break
+        if case["spec"].get("special") or _bref_on_pinned(case["spec"]):
+            continue
+        if len(err_cases) % 2 == 0:
+            bad_uset = n2p.addgrid(case["uset"], 9999, "b", 0, [0.0, 0.0, 0.0], 0)
+            err_cases.append((case, "usetrows", dict(uset=bad_uset)))
+            req.append(cbcheck_request(case, uset=bad_uset))
+        elif case["spec"]["nbg"] > 1:
+            pb = case["pos_b"]
+            bad = np.concatenate([pb[6:], pb[:6]])  # grids rotated: not ascending
+            err_cases.append((case, "notascending", dict(bseto=bad)))
+            req.append(cbcheck_request(case, bseto=bad, reorder=False))
 
     # --- G: _solve_eig (null columns, Guyan reduction of massless DOF, back expansion) ---------------
     rng = ctx.np_rng(7)
@@ -1810,6 +1884,8 @@ def correspondence(ctx):
     for c in c0_cases:
         req.append("cbtf0 %d %d %s %s %s" % (c["M"].shape[0], len(c["bset"]), ints(c["bset"]), bits(c["a"]), bits(c["M"])))
 
+    if os.environ.get("C06_DUMP"):
+        open(os.environ["C06_DUMP"], "w").write("\n".join(req) + "\n")
     rep = drv.ask(req)
     if any(r == "bad-op" for r in rep):
         raise Infra("C06 driver rejected request %r" % req[rep.index("bad-op")][:60])
@@ -1899,6 +1975,26 @@ def correspondence(ctx):
             continue
         compare_cbcheck(ctx, cmp, case, out, txt, mo)
         ctx.sample({"cbcheck_spec": spec, "n": case["n"], "refchk": mo["chk"]}, cap=4)
+    for case, kind, kw in err_cases:
+        mo = parse_cbcheck_reply(rep[k], case["n"], case["nb"])
+        k += 1
+        inp = {"spec": case["spec"], "error-variant": kind}
+        spec = case["spec"]
+        conv = tuple(spec["conv"]) if isinstance(spec["conv"], list) else spec["conv"]
+        got = "a result"
+        try:
+            with warnings.catch_warnings():
+                warnings.simplefilter("ignore")
+                cb.cbcheck(io.StringIO(), case["Min"].copy(), case["Kin"].copy(), kw.get("bseto", case["bseto"]).copy(), case["bref"].copy(),
+                           kw.get("uset", case["uset"]), uref=case["uref"], conv=conv, rb_norm=spec["rbnorm"],
+                           reorder=spec["reorder"] if kind == "usetrows" else False)
+        except ValueError as e:
+            got = "raise-usetrows" if "number of rows in `uset`" in str(e) else ("raise-notascending" if "ascending" in str(e) else "ValueError: " + str(e)[:80])
+        except Exception as e:  # noqa: BLE001
+            got = "%s: %s" % (type(e).__name__, str(e)[:80])
+        if got != mo["chk"] or mo["chk"] != "raise-" + kind:
+            ctx.disagree("cbcheck-input-errors", inp, got, mo["chk"])
+        ctx.case(("cbcheck-error", kind, json.dumps(spec, sort_keys=True)), branch="cbcheck:raises-" + kind)
     # G
     worst_psi = 0.0
     for c in eg_cases:
@@ -2029,7 +2125,8 @@ def correspondence(ctx):
         # extension round
         "variant:grounded1", "special:massless6", "special:massless-rot", "special:pinned",
         "coordchk:zero-stiffness-trimmed", "solve_eig:null-columns-trimmed", "solve_eig:massless-guyan-reduced",
-        "cbcheck:raises-refpoint-zero-stiffness",
+        "cbcheck:raises-refpoint-zero-stiffness", "cbcheck:raises-usetrows", "cbcheck:raises-notascending",
+        "em_filt:positive", "em_filt:rows-dropped", "reorder:False-bset-not-leading",
         "solve_eig-direct:none", "solve_eig-direct:null", "solve_eig-direct:massless", "solve_eig-direct:both",
         "rbdisp:exact", "rbdisp:small", "rbdisp:large", "rbdisp:warned",
         "netdrm:plain", "netdrm:conv", "netdrm:bsubset", "netdrm:sccoord",
@@ -2639,18 +2736,26 @@ def oracle_report(out, fam, inp, case, tr, res, rp, free, geometry_ok):
             _fail(out, fam("report-freefree"), "free-free frequencies differ from the finite eigenvalues of the (K, M) pencil", inp,
                   ff.tolist(), want.tolist())
     # which DOF were reduced out (the printed pv lists)
-    nullp = sorted(_positions_after(case, [i for i in pt["null"] if i < nb]))
+    # (printed positions are matrix positions: the b-set rows sit at res.bset, which is arange(nb) after reordering)
+    nullp = sorted(int(np.asarray(res.bset)[i]) for i in _positions_after(case, [i for i in pt["null"] if i < nb]))
     if (rp["trim_null"] or []) != nullp:
         _fail(out, fam("report-trim"), "null columns listed by _solve_eig", inp, rp["trim_null"], nullp)
     if len(rp["trim_massless"] or []) != len(pt["massless"]):
         _fail(out, fam("report-trim"), "massless DOF listed by _solve_eig", inp, rp["trim_massless"], "%d DOF" % len(pt["massless"]))
     # --- fixed-base modes / effective mass table
     if geometry_ok and free and nq:
-        if rp.get("em_percent") is None or rp.get("em_modes") != list(range(1, nq + 1)):
-            _fail(out, fam("report-effmass"), "effective mass table incomplete", inp, rp.get("em_modes"), "modes 1..%d" % nq)
+        # em_filt > 0 prints only the modes with more than em_filt percent in some direction (the totals include all modes)
+        emf = float(spec.get("em_filt", 0))
+        keep = np.nonzero(np.any(tr["percent"] > emf, axis=1))[0] if emf > 0 else np.arange(nq)
+        on_edge = emf > 0 and np.any(np.abs(tr["percent"] - emf) <= 1e-6 * max(emf, 1.0))
+        if on_edge:
+            pass
+        elif rp.get("em_percent") is None or rp.get("em_modes") != [int(q) + 1 for q in keep]:
+            _fail(out, fam("report-effmass"), "effective mass table does not list the modes above em_filt (all modes for em_filt = 0)", inp,
+                  rp.get("em_modes"), [int(q) + 1 for q in keep])
         else:
-            chk("effmass", "percent effective mass", rp["em_percent"], tr["percent"], 0.6e-2, 1e-6, 100.0)
-            chk("effmass", "fixed-base frequencies of the table", rp["em_frq"], tr["frq"], 0.6e-3, 1e-8)
+            chk("effmass", "percent effective mass", rp["em_percent"], tr["percent"][keep], 0.6e-2, 1e-6, 100.0)
+            chk("effmass", "fixed-base frequencies of the table", rp["em_frq"], tr["frq"][keep], 0.6e-3, 1e-8)
             chk("effmass", "total effective mass line", rp["em_total"], tr["percent"].sum(axis=0), 0.6e-2, 1e-6, 100.0)
             if rp["em_total"] is not None and np.any(rp["em_total"][:3] > 100.006):
                 _fail(out, fam("report-effmass"), "translational effective mass exceeds 100 percent", inp, rp["em_total"].tolist(), "<= 100")
